@@ -116,7 +116,10 @@ Definition get_offset (s : storage) (off size : Z) : storage :=
   end.
 
 (* ---------- reading scalars ---------- *)
-Definition nth_byte (bytes : list Z) (i : Z) : Z := nth (Z.to_nat i) bytes 0.
+(* the byte at index i, 0 outside the list; the bound is tested on Z first so that evaluating a read
+   at an absurd offset (a 64-bit field used as an offset) never builds a unary number of that size *)
+Definition nth_byte (bytes : list Z) (i : Z) : Z :=
+  if Z.of_nat (length bytes) <=? i then 0 else nth (Z.to_nat i) bytes 0.
 
 Fixpoint le_value (bytes : list Z) (o : Z) (n : nat) : Z :=
   match n with
